@@ -105,6 +105,8 @@ fn v1_addr(a: &v1::Addresses) -> String {
             a.source_port,
             a.destination_port
         ),
+        #[allow(unreachable_patterns)]
+        other => format!("Other({:?})", other),
     }
 }
 
@@ -129,6 +131,9 @@ fn v1_err(e: &v1::ParseError) -> String {
         InvalidSourcePort(Some(_)) => "InvalidSourcePort(std)".into(),
         InvalidDestinationPort(None) => "InvalidDestinationPort(crate)".into(),
         InvalidDestinationPort(Some(_)) => "InvalidDestinationPort(std)".into(),
+        // a variant this harness does not know (the enum grew): still an observation, printed through Debug
+        #[allow(unreachable_patterns)]
+        other => format!("Other({:?})", other),
     }
 }
 
@@ -136,6 +141,8 @@ fn v1_berr(e: &v1::BinaryParseError) -> String {
     match e {
         v1::BinaryParseError::Parse(e) => v1_err(e),
         v1::BinaryParseError::InvalidUtf8(_) => "InvalidUtf8".into(),
+        #[allow(unreachable_patterns)]
+        other => format!("Other({:?})", other),
     }
 }
 
@@ -189,6 +196,8 @@ fn v2_addr(a: &v2::Addresses) -> String {
             a.destination_port
         ),
         v2::Addresses::Unix(a) => format!("X/{}/{}", hexs(&a.source), hexs(&a.destination)),
+        #[allow(unreachable_patterns)]
+        other => format!("Other({:?})", other),
     }
 }
 
@@ -205,6 +214,8 @@ fn v2_err(e: &v2::ParseError) -> String {
         InvalidAddresses(l, n) => format!("InvalidAddresses({},{})", l, n),
         InvalidTLV(k, n) => format!("InvalidTLV({},{})", k, n),
         Leftovers(n) => format!("Leftovers({})", n),
+        #[allow(unreachable_patterns)]
+        other => format!("Other({:?})", other),
     }
 }
 
@@ -212,6 +223,8 @@ fn cmd_code(c: v2::Command) -> u8 {
     match c {
         v2::Command::Local => 0,
         v2::Command::Proxy => 1,
+        #[allow(unreachable_patterns)]
+        _ => 254,
     }
 }
 fn proto_code(p: v2::Protocol) -> u8 {
@@ -219,6 +232,8 @@ fn proto_code(p: v2::Protocol) -> u8 {
         v2::Protocol::Unspecified => 0,
         v2::Protocol::Stream => 1,
         v2::Protocol::Datagram => 2,
+        #[allow(unreachable_patterns)]
+        _ => 254,
     }
 }
 fn fam_code(f: v2::AddressFamily) -> u8 {
@@ -227,12 +242,16 @@ fn fam_code(f: v2::AddressFamily) -> u8 {
         v2::AddressFamily::IPv4 => 1,
         v2::AddressFamily::IPv6 => 2,
         v2::AddressFamily::Unix => 3,
+        #[allow(unreachable_patterns)]
+        _ => 254,
     }
 }
 
 fn v2_hdr(h: &v2::Header) -> String {
     let v = match h.version {
         v2::Version::Two => 2,
+        #[allow(unreachable_patterns)]
+        _ => 254,
     };
     format!(
         "OK {} v{} c{} p{} {}",
